@@ -162,3 +162,59 @@ class Codec:
             if on_case:
                 on_case(k, ln, m[k], r[k], d[k] if d else None)
         return n_dis
+
+
+def zlist(hexstr):
+    if hexstr in ("-", ""):
+        return "[]"
+    b = bytes.fromhex(hexstr)
+    return "[" + "; ".join(str(x) for x in b) + "]"
+
+
+def crosscheck_extraction(check, codec, lines, model_out):
+    """Evaluate a sample of the same cases inside Coq (vm_compute) and compare with the extracted OCaml runner, so that
+    extraction and the OCaml driver are themselves checked on every run.  Supported commands: enc_int, oid_parse,
+    oid_print, hdr, dec_int."""
+    exprs, expect = [], []
+    for ln, mo in zip(lines, model_out):
+        p = ln.split(" ")
+        if p[0] == "enc_int":
+            exprs.append("match push_int empty_buffer (%s) with Ok b => Some (data b) | _ => None end" % p[1])
+            expect.append("Some " + zlist(mo[3:]) if mo.startswith("OK ") else "None")
+        elif p[0] == "oid_parse":
+            exprs.append("oid_of_text %s" % zlist(p[1]))
+            expect.append("Ok " + zlist(mo[3:]) if mo.startswith("OK ") else ("Err " + mo[4:] if mo.startswith("ERR ") else "Panic"))
+        elif p[0] == "oid_print":
+            exprs.append("text_of_oid %s" % zlist(p[1]))
+            expect.append("Ok " + zlist(mo[3:]) if mo.startswith("OK ") else ("Err " + mo[4:] if mo.startswith("ERR ") else "Panic"))
+        elif p[0] == "dec_int":
+            exprs.append("match int_from_ber %s with Ok (r, v) => (0, v, r) | Err _ => (1, 0, []) | Panic => (2, 0, []) end" % zlist(p[1]))
+            if mo.startswith("OK int:"):
+                v, rest = mo[7:].split(" rest=")
+                expect.append("(0, %s, %s)" % (v if not v.startswith("-") else "(%s)" % v, zlist(rest)))
+            else:
+                expect.append("(1, 0, [])" if mo.startswith("ERR") else "(2, 0, [])")
+        elif p[0] == "hdr":
+            exprs.append("match parse_header %s with Ok (r, h) => (0, h_class h, h_constructed h, h_tag h, h_length h, r) "
+                         "| Err _ => (1, 0, false, 0, 0, []) | Panic => (2, 0, false, 0, 0, []) end" % zlist(p[1]))
+            if mo.startswith("OK "):
+                f = mo.split(" ")
+                expect.append("(0, %s, %s, %s, %s, %s)" % (f[1], "true" if f[2] == "1" else "false", f[3], f[4], zlist(f[5][5:])))
+            else:
+                expect.append("(1, 0, false, 0, 0, [])" if mo.startswith("ERR") else "(2, 0, false, 0, 0, [])")
+    if not exprs:
+        return 0
+    got, out = vf.coq_eval("From GS Require Import Model.Base Model.Ber Model.Buffer Model.OidText.", exprs)
+    if got is None:
+        check.broken = list(check.broken) + ["in-Coq evaluation of the model failed: " + out[-300:]]
+        return 0
+    bad = 0
+    for e, g, w in zip(exprs, got, expect):
+        if (g or "").replace("(-", "-").replace(")", "").replace("(", "") != w.replace("(-", "-").replace(")", "").replace("(", ""):
+            bad += 1
+            if bad <= 3:
+                check.log("extracted runner and vm_compute differ on `%s`: vm_compute `%s` runner `%s`" % (e[:120], g, w))
+    if bad:
+        check.broken = list(check.broken) + ["extraction cross-check: %d of %d sampled cases differ between vm_compute and the extracted runner" % (bad, len(exprs))]
+    check.coverage["extraction_crosscheck"] = {"sampled_cases_evaluated_in_coq": len(exprs), "differences": bad}
+    return len(exprs)
